@@ -41,6 +41,10 @@ def binop_cases(index, opname):
             yield {"name": f"{o1}|{o2}", "pre": [], "thunk": thunk, "post": post, "args": (a, c),
                    "allowed_raise": (lambda exc: z3.BoolVal(exc == "NotImplementedError")),
                    "describe": describe}
+        # aliased operands: the same object on both sides
+        a = generic(index, o1, "x")
+        yield {"name": f"{o1}|same-object", "pre": [], "thunk": (lambda ex, a=a: (lambda r: (r, ex.contains(r, S), ex.contains(a, S), ex.contains(a, S)))(ex.binop(op, a, a))),
+               "post": post, "args": (a, a), "allowed_raise": (lambda exc: z3.BoolVal(exc == "NotImplementedError")), "describe": describe}
 
 
 def invert_cases(index):
